@@ -21,8 +21,14 @@ _LOW = 2.0 ** -53
 _CMP_RE = re.compile(r"(random\.random\(\)|random\.uniform\([^)]*\)|uniform\([^)]*\)|random\(\))\s*(<=|<|>=|>)")
 
 
+class DrawBudgetExceeded(RuntimeError):
+    """artap consumed far more random draws than any terminating execution of the harness can need (a livelock,
+    e.g. an offspring loop that rejects every child). Reported by the checks as a violation, never swallowed."""
+
+
 class RandomShim:
     def __init__(self):
+        self.max_draws = 5000
         self.ctx = None
         self.base = _random.Random(0)
         self.extreme_values = False      # offer boundary options for `value` draws
@@ -47,6 +53,7 @@ class RandomShim:
         self.price_pick = cfg.get("price_pick", 1)
         self.price_value = cfg.get("price_value", 1)
         self.value_options = cfg.get("value_options", (0.0, _ONE_MINUS))
+        self.max_draws = cfg.get("max_draws", 5000)
 
     # -- classification ---------------------------------------------------------------------------
     def _caller_kind(self):
@@ -64,6 +71,8 @@ class RandomShim:
     def _unit(self):
         """A number in [0,1): the owned replacement of random.random()."""
         self.draws += 1
+        if self.draws > self.max_draws:
+            raise DrawBudgetExceeded("more than %d random draws in one execution" % self.max_draws)
         b = self.base.random()
         ctx = self.ctx
         if ctx is None:
@@ -93,6 +102,8 @@ class RandomShim:
 
     def _pick_index(self, n, label):
         self.draws += 1
+        if self.draws > self.max_draws:
+            raise DrawBudgetExceeded("more than %d random draws in one execution" % self.max_draws)
         b = self.base.randrange(n)
         ctx = self.ctx
         if ctx is None or not self.enumerate_picks or n <= 1:
